@@ -268,8 +268,8 @@ example : (Core.exLoop.run ([(0, 10, 11), (60, 11, 12)] ++ [(120, 12, 9)]) []).t
     [(0, 10, 11), (60, 11, 12)] [(120, 12, 9)] [(120, 500, 1), (180, 1, 1)] []
 
 /-- two configurations that differ only after the first two bars (a market frame and a price frame with different futures) -/
-def Core.exC1 : Cfg := ⟨[⟨[0, 60, 120], false⟩], [0, 60, 120], 60, false⟩
-def Core.exC2 : Cfg := ⟨[⟨[0, 60, 180, 240], false⟩], [0, 60, 180, 240], 60, false⟩
+def Core.exC1 : Cfg := ⟨[{ idx := [0, 60, 120], openCb := false }], [0, 60, 120], 60, false⟩
+def Core.exC2 : Cfg := ⟨[{ idx := [0, 60, 180, 240], openCb := false }], [0, 60, 180, 240], 60, false⟩
 
 example : ∀ t ∈ [(0 : Int), 60], AgreeAt Core.exC1 Core.exC2 t := by
   intro t ht
